@@ -87,13 +87,13 @@ AllCalls(e) == CASE e.op = "call" -> {e.name}
                  [] OTHER -> {}
 CallsOf(r) == IF HasRule(r) THEN AllCalls(RuleExp(r)) \cap RuleNames ELSE {}
 ReachL(r) == Reach(LeftCalls(r), LeftCalls(r))
-SameCycle(r) == {q \in RuleNames : q \in ReachL(r) /\ r \in ReachL(q)}
+SameLeftCycle(r) == {q \in RuleNames : q \in ReachL(r) /\ r \in ReachL(q)}
 RECURSIVE ReachAvoid(_, _, _)
 ReachAvoid(front, seen, avoid) == LET nxt == (UNION {CallsOf(x) : x \in front} \ seen) \ avoid IN
                                   IF nxt = {} THEN seen ELSE ReachAvoid(nxt, seen \cup nxt, avoid)
 StaticLeaderDeviates(start) ==
     \E r \in LeftRecursive : /\ ~RuleRec(r).lrec
-                             /\ LET av == {q \in SameCycle(r) : RuleRec(q).lrec} IN
+                             /\ LET av == {q \in SameLeftCycle(r) : RuleRec(q).lrec} IN
                                   start \notin av /\ r \in ReachAvoid({start}, {start}, av)
 
 \* ---- can an expression succeed while contributing no item (its packed value is None)?
